@@ -59,7 +59,8 @@ def gen_coord(rng, cls, w, d):
 
 
 COORD_CLASSES = ['random', 'rounding-boundary', 'negative-zero', 'widest', 'integer', 'scales']
-BOX_CLASSES = ['vector', 'diagonal', 'triclinic', 'triclinic-negative', 'triclinic-tiny', 'unset', 'zero-vector']
+BOX_CLASSES = ['vector', 'diagonal', 'triclinic', 'triclinic-negative', 'triclinic-tiny', 'unset', 'zero-vector',
+               'triclinic-upper', 'triclinic-single']
 TITLES = ['ionic liquid', ' leading blank', 'trailing blank  ', 't=   0.00000 step= 0', 'x', '; semi [ bracket ]',
           '   ', '12345', 'Gro file, with: punctuation! (and) more', 'tab\there']
 
@@ -80,6 +81,17 @@ def gen_box(rng, cls):
     elif cls == 'triclinic-negative':
         for (i, j) in [(0, 1), (0, 2), (1, 0), (1, 2), (2, 0), (2, 1)]:
             box[i, j] = rng.uniform(-5, 5)
+    elif cls == 'triclinic-upper':
+        # only entries above the diagonal (not the gromacs convention, but a legal 3x3 input)
+        for (i, j) in [(0, 1), (0, 2), (1, 2)]:
+            if rng.random() < 0.7:
+                box[i, j] = rng.uniform(-5, 5)
+        if not (box[0, 1] or box[0, 2] or box[1, 2]):
+            box[1, 2] = -1.25
+    elif cls == 'triclinic-single':
+        # exactly one off-diagonal entry, any of the six, any sign
+        i, j = [(0, 1), (0, 2), (1, 0), (1, 2), (2, 0), (2, 1)][int(rng.integers(0, 6))]
+        box[i, j] = rng.uniform(0.01, 5) * rng.choice([-1, 1])
     else:
         box[1, 0] = rng.choice([1e-7, 3e-6, 1e-5, -2e-6])
     return box
